@@ -56,6 +56,14 @@ impl Check for IndexNameTranslation {
     type Case = MapCase;
     const NAME: &'static str = "index_name_translation";
 
+    fn normalise(mut case: MapCase) -> MapCase {
+        case.defs = world::normalise_defs(case.defs, false);
+        if case.defs.is_empty() {
+            case.defs.push(InstrumentDef { exchange: 0, base: 0, quote: 2, kind: world::KindDef::Spot, unit: world::UnitDef::NoSpec });
+        }
+        case
+    }
+
     fn strategy(tier: Tier) -> BoxedStrategy<MapCase> {
         let max = match tier {
             Tier::Quick => 9usize,
@@ -363,6 +371,17 @@ pub struct LinkRouting;
 impl Check for LinkRouting {
     type Case = RoutingCase;
     const NAME: &'static str = "link_routing";
+
+    fn normalise(mut case: RoutingCase) -> RoutingCase {
+        case.defs = world::normalise_defs(case.defs, true).into_iter().map(|mut d| { d.kind = world::KindDef::Spot; d.base %= 5; d.quote %= 5; if d.quote == d.base { d.quote = (d.base + 1) % 5; } d }).collect();
+        case.defs.truncate(10);
+        if case.defs.is_empty() {
+            case.defs.push(InstrumentDef { exchange: 0, base: 0, quote: 2, kind: world::KindDef::Spot, unit: world::UnitDef::NoSpec });
+        }
+        case.mock_mask = 1 + case.mock_mask % 31;
+        case.probes.truncate(5);
+        case
+    }
 
     fn strategy(tier: Tier) -> BoxedStrategy<RoutingCase> {
         let max = if tier == Tier::Quick { 6usize } else { 10usize };
